@@ -1783,6 +1783,26 @@ func (t *itype) lookupField(name string) []int {
 	return lookup(t)
 }
 
+// fieldCount returns the number of fields of the given name which are declared
+// at the given depth in the embedded struct fields of t (0 for the fields of t itself).
+func (t *itype) fieldCount(name string, depth int) (c int) {
+	for t.val != nil && (t.cat == ptrT || t.cat == linkedT) {
+		t = t.val
+	}
+	if depth == 0 {
+		if t.fieldIndex(name) >= 0 {
+			c++
+		}
+		return c
+	}
+	for _, f := range t.field {
+		if f.embed && isStruct(f.typ) {
+			c += f.typ.fieldCount(name, depth-1)
+		}
+	}
+	return c
+}
+
 // lookupBinField returns a structfield and a path to access an embedded binary field in a struct object.
 func (t *itype) lookupBinField(name string) (s reflect.StructField, index []int, ok bool) {
 	if t.cat == ptrT {
